@@ -226,8 +226,10 @@ def immutability(case, res):
 
 def evaluate(case, res):
     out = []
+    reset = ' reset_by_late_route' if trace.had_late_route_reset(res) \
+        else ''
     for inv, msg, sig in data_oracle(case, res) + immutability(case, res):
-        out.append((inv, msg, progcase.tag_signature(case, sig)))
+        out.append((inv, msg, progcase.tag_signature(case, sig + reset)))
     if not out:
         # additionally the reference interpreter, where it is exact
         rr, rrec = progcase.reference(case)
